@@ -152,7 +152,7 @@ def make_recipe(rng: random.Random, tier: str, idx: int) -> dict:
     quick = tier == "quick"
     special = idx % 20
     if special == 19:       # long solutions (> 127 rows): the dtype of the stored lengths matters
-        g = rng.choice([12, 13] if quick else [12, 14, 16, 19])
+        g = rng.choice([12, 13, 16, 17] if quick else [12, 14, 16, 17, 19, 23])   # 16x16 = 256 cells, 17x17 = 289: one byte is not enough for a length
         cl, sol = _snake(g)
         mazes = []
         for k in range(rng.randint(1, 3)):
@@ -190,7 +190,11 @@ def make_recipe(rng: random.Random, tier: str, idx: int) -> dict:
         mode = {16: "none", 17: "first_none", 18: "later_none"}[special]
     else:
         mode = MODES_OK[idx % 3] if rng.random() < 0.8 else rng.choice(MODES_OK)
-    return dict(name=f"d{idx}", gen=gen, kwargs=kwargs, grid_n=g, seed=seed, mazes=mazes, mode=mode, tag="generated")
+    rc = dict(name=f"d{idx}", gen=gen, kwargs=kwargs, grid_n=g, seed=seed, mazes=mazes, mode=mode, tag="generated")
+    if mode in ("collected", "both") and rng.random() < 0.35:
+        # a dataset put together by hand from an already-collected one (sliced / merged): its config's n_mazes is stale
+        rc["cfg_n_delta"] = rng.choice([2, 1, -1] if len(mazes) >= 2 else [2, 1])
+    return rc
 
 
 def materialise(rc: dict):
@@ -214,6 +218,10 @@ def materialise(rc: dict):
         ds = ds.filter_by.collect_generation_meta()
     elif mode == "both":
         ds = ds.filter_by.collect_generation_meta(clear_in_mazes=False)
+    if rc.get("cfg_n_delta") and mode in ("collected", "both"):
+        cfg2 = copy.deepcopy(ds.cfg)
+        cfg2.n_mazes = len(ds.mazes) + rc["cfg_n_delta"]
+        ds = MazeDataset(cfg2, list(ds.mazes), generation_metadata_collected=copy.deepcopy(ds.generation_metadata_collected))
     return ds
 
 
@@ -739,7 +747,7 @@ def run(ctx):
                 members.append(dict(name=f"c{k}m{j}", gen="gen_dfs", kwargs={}, seed=j, grid_n=crng.randint(2, 5), mazes=[], mode="empty", tag="empty"))
             else:
                 rc = make_recipe(crng, "quick", 5 * crng.randrange(0, 3) + crng.randrange(0, 5))   # generated, OK modes only
-                rc["name"] = f"c{k}m{j}"
+                rc["name"] = f"c{k}m{j}"; rc.pop("cfg_n_delta", None)
                 rc["mazes"] = rc["mazes"][:crng.choice([1, 2, 4, 9])]
                 members.append(rc)
         lens = [len(m["mazes"]) for m in members]
